@@ -36,3 +36,35 @@ ssize_t getrandom(void *buf, size_t len, unsigned int flags) {
     }
     return (ssize_t)len;
 }
+
+/* Clock seam: interposes clock_gettime(2).  verif_advance_clock_ns(n) makes every clock of the process jump forward by
+ * n nanoseconds from then on (a scripted source "takes 300 ms" without any real waiting).  The skew only ever grows,
+ * so the monotonic clocks stay monotonic; with no call to verif_advance_clock_ns the function is the identity. */
+#include <time.h>
+#include <dlfcn.h>
+#include <stdatomic.h>
+
+static _Atomic uint64_t clock_skew_ns = 0;
+void verif_advance_clock_ns(uint64_t ns) { atomic_fetch_add(&clock_skew_ns, ns); }
+uint64_t verif_clock_skew_ns(void) { return atomic_load(&clock_skew_ns); }
+
+typedef int (*clock_gettime_fn)(clockid_t, struct timespec *);
+static _Atomic(clock_gettime_fn) real_clock_gettime = 0;
+
+int clock_gettime(clockid_t id, struct timespec *ts) {
+    clock_gettime_fn f = atomic_load(&real_clock_gettime);
+    if (!f) {
+        f = (clock_gettime_fn)dlsym(RTLD_NEXT, "clock_gettime");
+        if (f) atomic_store(&real_clock_gettime, f);
+    }
+    int r = f ? f(id, ts) : (int)syscall(SYS_clock_gettime, id, ts);
+    if (r != 0) return r;
+    uint64_t skew = atomic_load(&clock_skew_ns);
+    if (skew && (id == CLOCK_MONOTONIC || id == CLOCK_REALTIME || id == CLOCK_BOOTTIME || id == CLOCK_MONOTONIC_RAW ||
+                 id == CLOCK_MONOTONIC_COARSE || id == CLOCK_REALTIME_COARSE)) {
+        uint64_t ns = (uint64_t)ts->tv_nsec + skew % 1000000000ULL;
+        ts->tv_sec += (time_t)(skew / 1000000000ULL) + (time_t)(ns / 1000000000ULL);
+        ts->tv_nsec = (long)(ns % 1000000000ULL);
+    }
+    return r;
+}
